@@ -3,7 +3,7 @@
 
    Alphabet note: [trim_space] is Go's strings.TrimSpace on ASCII input.  TrimSpace also removes
    the non-ASCII Unicode spaces (U+0085, U+00A0, U+1680, U+2000-200A, U+2028/9, U+202F, U+205F,
-   U+3000); the generated srcset values contain none of those. *)
+   U+3000); the generated url(...) texts contain none of those. *)
 From Coq Require Import List Ascii String NArith Bool.
 From ZenoV Require Import Lib.Hex.
 Import ListNotations.
